@@ -211,6 +211,13 @@ pub enum Kind {
     /// packets, final-mark pause, line-reusing allocation burst, full collection); see
     /// `Child::satb_execution`
     Satb,
+    /// a GC request and a fork request in flight together: a second thread plays mutator 0 and
+    /// makes one forced user collection request while the controller (the VM's forking thread)
+    /// calls `prepare_to_fork`; both start at quiescence, so the fork request lands before / while
+    /// / after the GC goal is current and the GC request before / while / after StopForFork is
+    /// current.  Then the fork round trip (all worker threads returned, joined, `after_fork`), after
+    /// which the GC request must have been served, and a further plain collection
+    Forkreq,
 }
 
 impl Kind {
@@ -222,6 +229,7 @@ impl Kind {
             Kind::Race { racers } => format!("race{}", racers),
             Kind::Req2 => "req2".into(),
             Kind::Satb => "satb".into(),
+            Kind::Forkreq => "forkreq".into(),
         }
     }
     pub fn from_name(s: &str) -> Kind {
@@ -236,6 +244,7 @@ impl Kind {
             "race3" => Kind::Race { racers: 3 },
             "req2" => Kind::Req2,
             "satb" => Kind::Satb,
+            "forkreq" => Kind::Forkreq,
             other => machinery_failure(&format!("unknown scheduler scenario {}", other)),
         }
     }
@@ -263,6 +272,7 @@ impl Kind {
             Kind::Race { .. } => 1,
             Kind::Req2 => 2,
             Kind::Satb => 0,
+            Kind::Forkreq => 2,
         }
     }
 }
@@ -838,6 +848,23 @@ pub fn analyse(events: &[Event], workers: usize, job: &Job) -> Result<Facts, Fai
     } else if f.collections != job.kind.requests() {
         return fail("sched:collection_count", format!("{} requests were made, {} collections ran", job.kind.requests(), f.collections));
     }
+    // forkreq: the request made concurrently with prepare_to_fork is served by a collection that
+    // stopped the world after it was made (before or after the fork round trip)
+    if job.kind == Kind::Forkreq {
+        let Some(i) = events.iter().position(|e| e.name == "m_request" && e.a == 0) else {
+            return fail("sched:request_not_made", "the requesting thread never made its request".to_string());
+        };
+        let Some(j) = events.iter().position(|e| e.name == "m_return" && e.a == 0) else {
+            return fail("sched:request_not_served", format!("the collection request made at event #{} (concurrently with prepare_to_fork) never returned", i));
+        };
+        if events[j].b != 1 {
+            return fail("sched:request_ignored", format!("the forced collection request made concurrently with prepare_to_fork returned false (event #{})", j));
+        }
+        let stop = events[i..j].iter().position(|e| e.name == "vm_stopped").map(|k| i + k);
+        if !stop.map(|s0| events[s0..j].iter().any(|e| e.name == "vm_resume")).unwrap_or(false) {
+            return fail("sched:request_not_served", format!("the request (event #{}) returned at event #{} although no collection stopped the world after it and resumed the mutators before the return", i, j));
+        }
+    }
     // C11 (req2): a forced request is not refused, and the requesting mutator is blocked until a
     // collection that stopped the world after the request has resumed the mutators
     if job.kind == Kind::Req2 {
@@ -866,7 +893,12 @@ pub fn analyse(events: &[Event], workers: usize, job: &Job) -> Result<Facts, Fai
             return fail("stage:not_closed_at_gc_end", format!("bucket {} is open at quiescence", stage_name(s)));
         }
     }
-    if let Kind::Fork { rounds, .. } = job.kind {
+    let fork_rounds = match job.kind {
+        Kind::Fork { rounds, .. } => Some(rounds),
+        Kind::Forkreq => Some(1),
+        _ => None,
+    };
+    if let Some(rounds) = fork_rounds {
         for w in 0..workers {
             if surrendered[w] != rounds || spawned[w] != rounds || returned[w] != rounds {
                 return fail("fork:round_trip_count", format!("worker {}: {} fork round trips, but it surrendered {} times, its thread returned from start_worker {} times and it was respawned {} times", w, rounds, surrendered[w], returned[w], spawned[w]));
@@ -1312,6 +1344,77 @@ impl Child {
         None
     }
 
+    /// Scenario `forkreq`.  Returns the first failure.
+    fn fork_and_request(&mut self, heap_checks: &mut Vec<Result<(), crate::shadowvm::Fail>>) -> Option<Fail> {
+        let workers = self.cfg.workers;
+        // what `request_gc` prepares, for the one collection of the racing request
+        let stages: Vec<Vec<usize>> = self.world.shadow_reachable_stages().iter().map(|st| st.iter().map(|id| self.world.shadow.objs[id].addr).collect()).collect();
+        self.world.expected_weak_calls = Some(stages.len());
+        self.world.gc_traced_whole_heap = true;
+        vm::with_state(|s| s.expected_stages = stages);
+        vm::note_request_base();
+        let mmtk = self.world.mmtk;
+        let tid = 1 + workers;
+        // thread A: mutator 0 makes its request (it may stay blocked in block_for_gc across the
+        // whole fork round trip: the binding keeps it blocked while the workers are gone)
+        let h = self.inst.spawn(tid, "mutator-0", move || {
+            rt::event("m_request", 0, 0);
+            let r = mmtk.handle_user_collection_request(vm::mutator_tls(0), true, true);
+            rt::event("m_return", 0, r as usize);
+        });
+        // the controller is the VM's forking thread
+        rt::event("fork_request", 0, 0);
+        mmtk.prepare_to_fork();
+        // every worker thread must exit: wait (logically) until nothing can run
+        self.inst.quiesce();
+        let handles = vm::with_state(|s| std::mem::take(&mut s.worker_threads));
+        let waiting: Vec<(usize, Op)> = self.inst.waiting_threads();
+        let live: Vec<&(usize, Op)> = waiting.iter().filter(|(t, _)| *t != tid).collect();
+        if !live.is_empty() {
+            // they cannot be joined; put the handles back
+            vm::with_state(|s| s.worker_threads = handles);
+            return Some(("fork:worker_did_not_exit".into(), format!("after prepare_to_fork (with a collection request in flight) these worker threads are still waiting instead of having returned from start_worker: {:?}; the requesting thread is {}", live.iter().map(|(t, op)| format!("t{}:{}", t, op.name())).collect::<Vec<_>>(), if waiting.iter().any(|(t, _)| *t == tid) { "still blocked" } else { "done" })));
+        }
+        let a_blocked = waiting.iter().any(|(t, _)| *t == tid);
+        for h in handles {
+            let _ = h.join();
+        }
+        // between prepare_to_fork and after_fork: no worker, no goal; the collection request is
+        // either served already or still pending (then the requesting thread is blocked)
+        match view::monitor(mmtk) {
+            None => return Some(("sched:monitor_locked_at_quiescence".into(), "the worker monitor's mutex is held while all workers are gone".into())),
+            Some((n, parked, goal, requested)) => {
+                if goal.is_some() || n != workers || parked != 0 {
+                    return Some(("fork:monitor_after_exit".into(), format!("worker monitor after all workers exited: {} workers, {} parked, current goal {:?}", n, parked, goal)));
+                }
+                let gc_bit = requested & 1 != 0;
+                if requested & !1 != 0 || (gc_bit && !a_blocked) {
+                    return Some(("sched:goal_pending_at_quiescence".into(), format!("worker monitor after all workers exited: requested mask {:#b}, requesting thread blocked = {}", requested, a_blocked)));
+                }
+            }
+        }
+        if !a_blocked {
+            if let Err(e) = check_quiescent_state(mmtk, workers, false) {
+                return Some(e);
+            }
+        }
+        rt::event("fork_after", a_blocked as usize, 0);
+        mmtk.after_fork(vm::mutator_tls(0).0);
+        // the respawned workers serve the request if it is still pending
+        self.inst.quiesce();
+        if self.inst.waiting_threads().iter().any(|(t, _)| *t == tid) {
+            return Some(("sched:request_not_served".into(), format!("the collection request made concurrently with prepare_to_fork was never served: its thread is still blocked in block_for_gc after the workers were respawned (request pending across the fork = {}); GC request flag = {}, monitor = {:?}", a_blocked, view::gc_requested(mmtk), view::monitor(mmtk))));
+        }
+        let _ = h.join();
+        heap_checks.push(self.world.after_possible_gc());
+        // and a plain collection afterwards
+        if !self.request_gc() {
+            return Some(("sched:request_ignored".into(), "a forced user collection request was ignored".into()));
+        }
+        heap_checks.push(self.world.after_possible_gc());
+        None
+    }
+
     /// Scenario `req2`: both mutators make one forced request each.
     fn two_mutators_request(&mut self) {
         // two collections may run back to back: no per-collection expectations of the weak
@@ -1404,6 +1507,10 @@ impl Child {
                     // controller; the workers' remaining tail does not touch the heap)
                     heap_checks.push(self.world.after_possible_gc());
                 }
+                self.inst.quiesce();
+            }
+            Kind::Forkreq => {
+                early = self.fork_and_request(&mut heap_checks);
                 self.inst.quiesce();
             }
             Kind::Satb => {
@@ -1567,6 +1674,12 @@ impl Child {
             }
         }
         let outcome = format!("fin={:?};h={:?};dec={}", facts.gc_finished_by, facts.harness_runs.iter().map(|(_, w)| *w).collect::<Vec<_>>(), facts.last_parked_decisions);
+        let outcome = if job.kind == Kind::Forkreq {
+            // whether the request was still pending when all workers had exited
+            format!("{};request_pending_across_fork={}", outcome, info.events.iter().find(|e| e.name == "fork_after").map(|e| e.a as i64).unwrap_or(-1))
+        } else {
+            outcome
+        };
         let outcome = if job.kind == Kind::Satb { std::mem::take(&mut *SATB_OUT.lock().unwrap()) } else { format!("{}{}", outcome, race_outcome) };
         let nontrivial = if job.kind.is_race() { race_nontrivial } else if job.kind == Kind::Satb { info.preemptions > 0 && !outcome.contains("cycle_ended") } else { info.preemptions > 0 || facts.harness_runs.iter().map(|(_, w)| *w).collect::<std::collections::BTreeSet<_>>().len() > 1 };
         let violation = failure.map(|(s, m)| (scenario_sig(&s, job), m));
